@@ -249,3 +249,29 @@ def sibling_inherit_case(rng, costs=None, small=False):
             costs = rand_costs(rng, plain=False)
     # "only": run the unordered solvers (and the cheap plain ones) on it; the ordered DP over 2^families masks is slow here
     return {"S": S, "O": tree, "costs": costs, "only": "unordered"}
+
+
+def family_lists(nfam, ordered):
+    """Every non-empty list of distinct families among range(nfam): every arrangement of every subset when
+    `ordered` (mutually consistent AND inconsistent orders arise from the product), sorted subsets otherwise."""
+    out = []
+    for k in range(1, nfam + 1):
+        for sub in itertools.combinations(range(nfam), k):
+            out += [list(p) for p in itertools.permutations(sub)] if ordered else [list(sub)]
+    return out
+
+
+def exhaustive_labelled_cases(max_o, max_s, nfam, ordered):
+    """All (object shape, species shape, leaf assignment, leaf synteny per leaf) up to the given leaf counts:
+    the bounded-exhaustive scope of C02 / C03 ("every leaf assignment, every family subset per leaf in any
+    mutually (in)consistent order")."""
+    fl = family_lists(nfam, ordered)
+    for ns in range(1, max_s + 1):
+        for S in shapes(ns):
+            lv = leaf_paths(S)
+            for no in range(1, max_o + 1):
+                for osh in shapes(no):
+                    for sps in itertools.product(lv, repeat=no):
+                        for syn in itertools.product(fl, repeat=no):
+                            leaves = [{"s": s, "f": list(f)} for s, f in zip(sps, syn)]
+                            yield {"S": S, "O": fill_object(osh, iter(leaves))}
